@@ -716,3 +716,124 @@ E('many_classes', 'big ecs', r'''
 [j-l]q
 [^a-l]p
 ''')
+
+# --- yylineno: rules that can match a newline in every documented way ----------------
+E('ln_basic', 'lineno e1', r'''
+%option yylineno
+%%
+\n
+a\nb
+[^x]y
+x+
+''')
+
+E('ln_class', 'lineno e1', r'''
+%option yylineno
+%%
+[a\n]+
+[^ab]
+[[:space:]]z
+b
+''')
+
+E('ln_dot', 'lineno e1', r'''
+%option yylineno
+%%
+(?s:a.)
+(?s:.)q
+b.
+.
+''')
+
+E('ln_defs', 'lineno', r'''
+%option yylineno
+NL \n
+WS [ \t\n]
+%%
+{NL}
+a{WS}+b
+"x\ny"
+.
+''')
+
+E('ln_ops', 'lineno', r'''
+%option yylineno
+%%
+[a-c]{-}[b]x
+[\n]{+}[y]z
+[^\n]{-}[q]w
+(a|\n)(b|\n)
+\n{2}
+''')
+
+E('ln_trail', 'lineno trail e1', r'''
+%option yylineno
+%%
+a/\n
+b$
+c\n/d
+e/\n\n
+\n
+.
+''')
+
+E('ln_bar', 'lineno bar e1', r'''
+%option yylineno
+%%
+a\n |
+b
+c |
+d\n
+\n
+.
+''')
+
+E('ln_ci', 'lineno ci', r'''
+%option yylineno caseless
+%%
+[a\n]b
+C\nd
+.|\n
+''')
+
+E('ln_sc', 'lineno sc', r'''
+%option yylineno
+%x A
+%%
+a\n
+<A>[^a]+
+<A>a
+<*>.|\n
+''')
+
+E('ln_none', 'nolineno e1', r'''
+%%
+\n
+a\nb
+.
+''')
+
+# --- rule sets for the history harnesses (no trailing context, no EOF rules) ------
+E('h_words', 'hist', r'''
+%%
+abc
+ab
+a
+[a-c]+
+''')
+
+E('h_nl', 'hist histnl', r'''
+%option yylineno
+%%
+a\nb
+[a\n]+
+b
+''')
+
+E('h_sc', 'hist sc', r'''
+%x A
+%%
+ab
+<A>a+
+<*>b
+''')
